@@ -14,6 +14,8 @@ func Compile(root *Module) error {
 	c := &compiler{
 		root: root,
 		pool: make(map[HasDefinitions]struct{}),
+
+		typedefsInProgress: make(map[*Typedef]struct{}),
 	}
 	// loads submodules, imports and then resolve uses with groupings
 	if err := resolve(root); err != nil {
@@ -25,6 +27,9 @@ func Compile(root *Module) error {
 type compiler struct {
 	root *Module
 	pool map[HasDefinitions]struct{}
+
+	// typedefs whose type is being resolved, to reject a typedef chain that leads back to itself
+	typedefsInProgress map[*Typedef]struct{}
 }
 
 func (c *compiler) module(y *Module) error {
@@ -399,6 +404,11 @@ func (c *compiler) findTypedef(y *Type, parent Definition, qualifiedIdent string
 	}
 
 	// this will recurse if typedef references another typedef
+	if _, cycle := c.typedefsInProgress[found]; cycle {
+		return nil, errors.New(SchemaPath(parent) + " - typedef " + y.ident + " is defined in terms of itself")
+	}
+	c.typedefsInProgress[found] = struct{}{}
+	defer delete(c.typedefsInProgress, found)
 	if err := c.compile(found); err != nil {
 		return nil, err
 	}
